@@ -115,8 +115,8 @@ static bool in_child(const std::function<void(Digest*)>& body, Digest* shared, d
 static void histories(unsigned long long& unit)
 {
 	const auto &P = prior_alphabet(), &C = observed_alphabet();
-	int depth = mc::thorough() ? 3 : 2;
-	std::vector<unsigned> seeds = mc::thorough() ? std::vector<unsigned>{1, 2, 3, 4, 5, 6} : std::vector<unsigned>{1, 2};
+	int depth = mc::thorough() ? 4 : 2;
+	std::vector<unsigned> seeds = mc::thorough() ? std::vector<unsigned>{1, 2, 3} : std::vector<unsigned>{1, 2};
 	mc::alphabet("prior_calls", P.size());
 	mc::alphabet("observed_calls", C.size());
 	mc::alphabet("seeds", seeds.size());
